@@ -39,6 +39,16 @@ class S3Domain(small.SmallDomain):
     def track_fact(self, name):
         return isinstance(name, tuple) and name[:2] in (('field', 'self'),) or (isinstance(name, tuple) and name and name[0] in ('not',))
 
+    def on_raise(self, node, target, state):
+        if any(target.label.endswith('.' + m) for m in BOTO_MUTATORS):
+            return state.with_extra(boto_failed=True)
+        return state
+
+    def on_call(self, node, t, args, state):
+        if any(t.label.endswith('.' + m) for m in BOTO_MUTATORS) and state.extra.get('boto_failed'):
+            state = state.with_extra(boto_failed=False)
+        return small.SmallDomain.on_call(self, node, t, args, state)
+
     def on_stmt(self, node, state):
         if node.kind == 'enter' and node.info['callee'].func in self.mutators:
             callee = node.info['callee']
@@ -239,6 +249,24 @@ def run(ctx):
         res.add(Finding('C15', 'C15.c', 'R-PROV', init.file, init.qualname, asg[0].lineno, norm(asg[0]),
                         'the key prefix is not stored with its trailing delimiter (%s): own-prefix strings of two cassettes could be '
                         'string prefixes of one another' % why))
+
+    # ---- a failed bucket mutation leaves the facade as an exception (never swallowed: the caller must not go on to the next object)
+    for m in mutators:
+        dm = small.analyse(repo, excm, m, policy=pol, self_cls=fac, domain=S3Domain, mutators=[])
+        ce.evaluations += dm.visited_pairs
+        sw = [(n, s) for n, s in dm.exits if n.info['exit'] == 'return' and s.extra.get('boto_failed')]
+        ce.instance('facade.%s: a failing boto mutation propagates (not swallowed)' % m.name, m.qualname, not sw)
+        if sw:
+            n, s = sw[0]
+            res.add(Finding('C15', 'C15.e', 'R-ORDER', m.file, m.qualname, m.node.lineno, 'failed mutation swallowed',
+                            'facade.%s can return normally after its boto mutation failed: save would go on and write the discoverable metadata object '
+                            'although the full object is missing' % m.name, witness=dm.path_to(n, s)))
+        unp = [n for n in ast.walk(m.node) if isinstance(n, ast.Call) and isinstance(n.func, ast.Attribute) and n.func.attr in ('list_objects', 'list_objects_v2')
+               and not any(isinstance(l, (ast.While, ast.For)) and any(x is n for x in ast.walk(l)) for l in ast.walk(m.node))]
+        cc.instance('facade.%s: objects to delete are enumerated completely (collection / paginator, no single-page listing)' % m.name, m.qualname, not unp)
+        for n in unp:
+            res.add(Finding('C15', 'C15.c', 'R-PROV', m.file, m.qualname, n.lineno, norm(n)[:100],
+                            'a single %s call returns at most one page (1000 keys): a transient cassette with more recordings is not emptied on close' % n.func.attr))
 
     # ---- C15.e order in save, vs the template the listing uses
     listing_t = set()
